@@ -157,14 +157,16 @@ ConvOutcomeOk(tok, ty, o) ==
 ConvJudge(r) ==
   r.obs.r = "skip" \/ (r.obs.r = "conv" /\ r.obs.byval = r.obs.byref /\ ConvOutcomeOk(r.tok, r.ty, r.obs.byval))
 
-\* C07/C10 for sessions too large for the full stream semantics (buffers above 2^16 bytes): the monitors,
+\* C07/C10 for sessions too large for the full stream semantics (buffers above 2^16 bytes) or on a hand-written
+\* Interface whose command set changes at run time (no single declaration set describes it): the monitors,
 \* the end conditions, and identical handlers / errors / response bytes for every delivery schedule
 ProcDiffJudge(r) ==
   LET vs == r.obs.v
       ref == Proj(vs[1], "write")
   IN [ok |-> /\ \A k \in 1..Len(vs) : ProcMonitors(vs[k]) /\ EndOk(r.N, vs[k])
              /\ \A k \in 2..Len(vs) : Proj(vs[k], "write") = ref
-             /\ ("expect_out" \in DOMAIN r => ref.out = r.expect_out),
+             /\ ("expect_out" \in DOMAIN r => ref.out = r.expect_out)
+             /\ ("runs" \in DOMAIN r.obs => Proj(r.obs.runs, "out") = ref),
       free |-> FALSE]
 
 \* [ok, free] of one line
